@@ -106,7 +106,65 @@ Definition endswith_nl (s : str) : bool :=
 (* PybtexError.filename: None, a str, or some other object.  FnBad stands for an object that is
    neither None nor str and has no .decode (pybtex/bibtex/builtins.py:214 passes an int);
    bytes file names (decoded by pybtex.io._decode_filename) are outside the modelled domain *)
-Inductive fname := FnNone | FnStr (s : str) | FnBad.
+Inductive fname := FnNone | FnStr (s : str) | FnBytes (b : list N) | FnBad.
+
+(* bytes.decode('utf-8', errors='replace') -- pybtex.io._decode_filename(filename, errors='replace')
+   with a UTF-8 file system encoding (the harness checks sys.getfilesystemencoding() on every run):
+   CPython replaces every maximal invalid subsequence by one U+FFFD *)
+Definition in_rng (lo hi b : N) : bool := (lo <=? b) && (b <=? hi).
+Definition u_cont (b : N) : bool := in_rng 128 191 b.
+Definition u_rep : N := 65533.
+Fixpoint utf8_replace (l : list N) : str :=
+  match l with
+  | [] => []
+  | b0 :: t0 =>
+    if b0 <? 128 then b0 :: utf8_replace t0
+    else if in_rng 194 223 b0 then
+      match t0 with
+      | b1 :: t1 =>
+        if u_cont b1 then ((b0 - 192) * 64 + (b1 - 128)) :: utf8_replace t1
+        else u_rep :: utf8_replace t0
+      | [] => [u_rep]
+      end
+    else if in_rng 224 239 b0 then
+      let lo := if b0 =? 224 then 160 else 128 in
+      let hi := if b0 =? 237 then 159 else 191 in
+      match t0 with
+      | b1 :: t1 =>
+        if in_rng lo hi b1 then
+          match t1 with
+          | b2 :: t2 =>
+            if u_cont b2 then ((b0 - 224) * 4096 + (b1 - 128) * 64 + (b2 - 128)) :: utf8_replace t2
+            else u_rep :: utf8_replace t1
+          | [] => [u_rep]
+          end
+        else u_rep :: utf8_replace t0
+      | [] => [u_rep]
+      end
+    else if in_rng 240 244 b0 then
+      let lo := if b0 =? 240 then 144 else 128 in
+      let hi := if b0 =? 244 then 143 else 191 in
+      match t0 with
+      | b1 :: t1 =>
+        if in_rng lo hi b1 then
+          match t1 with
+          | b2 :: t2 =>
+            if u_cont b2 then
+              match t2 with
+              | b3 :: t3 =>
+                if u_cont b3
+                then ((b0 - 240) * 262144 + (b1 - 128) * 4096 + (b2 - 128) * 64 + (b3 - 128)) :: utf8_replace t3
+                else u_rep :: utf8_replace t2
+              | [] => [u_rep]
+              end
+            else u_rep :: utf8_replace t1
+          | [] => [u_rep]
+          end
+        else u_rep :: utf8_replace t0
+      | [] => [u_rep]
+      end
+    else u_rep :: utf8_replace t0
+  end.
 
 (* what get_context() consults *)
 Inductive ctx :=
@@ -128,6 +186,7 @@ Definition err_filename (e : err) : res (option str) :=
   match e_fn e with
   | FnNone => Ok None
   | FnStr s => Ok (Some s)
+  | FnBytes b => Ok (Some (utf8_replace b))     (* _decode_filename(self.filename, errors='replace') *)
   | FnBad => Crash      (* _decode_filename(obj): AttributeError *)
   end.
 
@@ -436,9 +495,11 @@ Definition warn_text (ss : list str) : str := concat (map (fun s => s ++ [10]) s
 Definition inv (g : G) (d : nat) : Prop := d = O -> g_cap g = None.
 
 (* the file name prefix format_error puts on a line *)
+Definition fname_text (f : fname) : option str :=
+  match f with FnStr s => Some s | FnBytes b => Some (utf8_replace b) | _ => None end.
 Definition fname_prefix (e : err) (l : str) : str :=
-  match e_fn e with
-  | FnStr (c :: f) => (c :: f) ++ k_colon_sp ++ l
+  match fname_text (e_fn e) with
+  | Some (c :: f) => (c :: f) ++ k_colon_sp ++ l
   | _ => l
   end.
 
@@ -446,12 +507,17 @@ Definition fname_prefix (e : err) (l : str) : str :=
 (* the constructors of the error classes: what __init__ stores, from what it is given *)
 
 (* a Scanner / LowLevelParser as far as the error classes read it (scanner.py:55-66):
-   Scanner(text, filename) -- the file name a parser carries is None or text *)
-Record scanner := mkScanner { sc_text : str; sc_filename : option str; sc_lineno : Z; sc_pos : Z }.
-(* AuxDataContext, auxfile.py:53-59 *)
-Record auxctx := mkAuxctx { ax_filename : option str; ax_lineno : option Z; ax_line : option str }.
+   Scanner(text, filename) *)
+(* the file name a parser / an .aux context carries: None, text, or a bytes path
+   (Parser().parse_file(b'...'), bst.parse_file(b'...'), auxfile.parse_file(b'...')) *)
+Inductive pfname := PNone | PStr (s : str) | PBytes (b : list N).
 
-Definition fname_of (o : option str) : fname := match o with None => FnNone | Some s => FnStr s end.
+Record scanner := mkScanner { sc_text : str; sc_filename : pfname; sc_lineno : Z; sc_pos : Z }.
+(* AuxDataContext, auxfile.py:53-59 *)
+Record auxctx := mkAuxctx { ax_filename : pfname; ax_lineno : option Z; ax_line : option str }.
+
+Definition fname_of (o : pfname) : fname :=
+  match o with PNone => FnNone | PStr s => FnStr s | PBytes b => FnBytes b end.
 
 (* PybtexError(message, filename=None), exceptions.py:28-30; also BibTeXError, BibliographyDataError,
    ConvertError (same __init__) and InvalidNameString, DuplicateField, PluginNotFound,
